@@ -73,6 +73,14 @@ func funcKeyOf(fn *ssa.Function) string {
 
 // ifaceMethodKey returns the contract key of an interface method call.
 func ifaceMethodKey(recvT types.Type, m *types.Func) string {
+	// a method promoted from an embedded interface is keyed by the interface that declares it
+	if sig, ok := m.Type().(*types.Signature); ok && sig.Recv() != nil {
+		if n, ok := sig.Recv().Type().(*types.Named); ok {
+			if _, isI := n.Underlying().(*types.Interface); isI {
+				recvT = n
+			}
+		}
+	}
 	if n, ok := recvT.(*types.Named); ok && n.Obj().Pkg() != nil {
 		return n.Obj().Pkg().Path() + "." + n.Obj().Name() + "." + m.Name()
 	}
@@ -364,4 +372,44 @@ func (g *Global) inheritedContract(fn *ssa.Function) *FuncContract {
 		return &cp
 	}
 	return nil
+}
+
+
+// ifaceContract finds the contract of an interface method call: the exact
+// interface first, then any contract-bearing interface the static type extends.
+func (g *Global) ifaceContract(recvT types.Type, m *types.Func) (string, *FuncContract) {
+	key := ifaceMethodKey(recvT, m)
+	if c := g.cs.Funcs[key]; c != nil {
+		return key, c
+	}
+	var keys []string
+	for k, c := range g.cs.Funcs {
+		if !c.Assumed && strings.HasSuffix(k, "."+m.Name()) {
+			keys = append(keys, k)
+		}
+	}
+	sort.Strings(keys)
+	for _, k := range keys {
+		i := strings.LastIndex(k, ".")
+		j := strings.LastIndex(k[:i], ".")
+		if j < 0 {
+			continue
+		}
+		sp := g.spkgs[k[:j]]
+		if sp == nil {
+			continue
+		}
+		o := sp.Pkg.Scope().Lookup(k[j+1 : i])
+		if o == nil {
+			continue
+		}
+		x, ok := o.Type().Underlying().(*types.Interface)
+		if !ok {
+			continue
+		}
+		if types.Implements(recvT, x) {
+			return k, g.cs.Funcs[k]
+		}
+	}
+	return key, nil
 }
